@@ -87,7 +87,8 @@ def gen_series(rng):
         x0, x1 = x1, x0
     return {"k": "c17.series", "xs": xs, "ys": ys, "qs": qs, "sx": rng.choice([-2.0, -1.0, 0.5, 1.0, 3.0, 0.0]), "sy": rng.choice([-1.0, 2.0, 0.5]),
             "dx": rng.uniform(-3, 3), "dy": rng.uniform(-3, 3), "x0": x0, "x1": x1, "level": level,
-            "n": rng.choice([0, 1, 2, 3, 5, 10]), "spacing": rng.choice([0.1, 0.37, 1.0, 5.0])}
+            "n": rng.choice([0, 1, 2, 3, 5, 10]), "spacing": rng.choice([0.1, 0.37, 1.0, 5.0]),
+            "nan_at": sorted(rng.sample(range(len(xs)), rng.choice([0, 0, 1, min(2, len(xs))])))}
 
 
 def corpus():
@@ -248,8 +249,31 @@ def oracle(c, r):
         pairs = sorted(zip([x * c["sx"] for x in xs], [y * c["sy"] for y in ys]), key=lambda p: p[0])
         if sorted(sc["x"]) != sorted(p[0] for p in pairs):
             yield ("scaled-values", "scaled_by abscissae %r, expected %r" % (sc["x"], [p[0] for p in pairs]))
+    # NaN removal: the finite pairs in order, nothing else
+    rm = pj(r.get("removed"))
+    na = c.get("nan_at", [])
+    if "removed" in r:
+        want = [(x, y) for i, (x, y) in enumerate(zip(xs, ys)) if i not in na]
+        if rm is None:
+            if len(want) >= 1 and valid([x for x, _ in want]):
+                yield ("remove-nan", "remove_nan panicked on xs=%r with NaN ordinates at %r" % (xs, na))
+        else:
+            yield from check_series_obj("remove_nan", rm["out"])
+            if rm["has_nan"] != bool(na):
+                yield ("remove-nan", "has_nan() = %r with NaN ordinates at %r" % (rm["has_nan"], na))
+            if list(zip(rm["out"]["x"], rm["out"]["y"])) != want:
+                yield ("remove-nan", "remove_nan on xs=%r ys=%r with NaN at %r gave %r, the finite pairs are %r" % (xs, ys, na, list(zip(rm["out"]["x"], rm["out"]["y"])), want))
+    for nm in ("abs", "dydx"):
+        v = pj(r.get(nm))
+        if v is not None:
+            yield from check_series_obj(nm, v)
+            if nm == "abs" and (v["x"] != xs or v["y"] != [abs(y) for y in ys]):
+                yield ("abs-values", "abs() of xs=%r ys=%r gave %r / %r" % (xs, ys, v["x"], v["y"]))
     x0, x1 = c["x0"], c["x1"]
     bt = pj(r["between"])
+    iv = pj(r.get("in_interval"))
+    if "in_interval" in r and (iv is None) != (bt is None) or (iv is not None and bt is not None and (iv["x"] != bt["x"] or iv["y"] != bt["y"])):
+        yield ("in-interval", "in_interval([%r, %r]) = %r but between gives %r" % (x0, x1, iv, bt))
     if xs[0] <= x0 < x1 <= xs[-1]:
         if bt is None:
             yield ("between-panic", "between(%r, %r) panicked on xs=%r" % (x0, x1, xs))
